@@ -169,11 +169,8 @@ fn run(case: &Case13) -> Option<(String, Value)> {
             let l = &d.layers[i];
             for y in l.oy..l.oy + l.h {
                 for x in l.ox..l.ox + l.w {
-                    // a cell of the opaque layer that itself uses the transparent colour looks through on purpose
-                    let own = l.cells.iter().rev().find(|c| c.x == x - l.ox && c.y == y - l.oy);
-                    if own.map(|c| c.fg == TR || c.bg == TR).unwrap_or(false) {
-                        continue;
-                    }
+                    // also where the opaque layer's own cell uses the transparent colour: it resolves against the default cell,
+                    // never against the layers below ("an opaque layer hides everything beneath it inside its rectangle")
                     let (ca, cb) = (base2.get_char((x, y)), b2.get_char((x, y)));
                     if !same(&ca, &cb) {
                         return report("L4-opaque-layer-hides-lower-layers", format!("layers below index {i} removed"), (x, y, ca, cb));
@@ -324,11 +321,11 @@ impl Prop for C13 {
         "C13"
     }
     fn rule(&self) -> &'static str {
-        "stacks of 1..=5 layers (sizes 1..=12 x 1..=8, offsets -4..=6, normal/chars/attributes mode, alpha or opaque, visible or hidden, sparse content incl. transparent-colour half blocks, optional overlay) are queried with Buffer::get_char at every position of the bounding box plus a 2-cell border before and after a transformation that the stacking laws say is invisible: L1 insert an empty alpha layer at a stack index; L2 rewrite the cells of a hidden layer; L3 translate every layer and the overlay by d and query at p+d; L4 remove all layers below a visible opaque normal-mode layer and query inside its rectangle; L5 move a layer and query positions it covers neither before nor after; L6 compare with a 15-line reference compositor on the fragment 'all layers normal mode, no transparent colours, no overlay'. Invisible results are compared as invisible only. distinct_nontrivial = distinct (law, stack shape, parameters) instances"
+        "stacks of 1..=5 layers (sizes 1..=12 x 1..=8, offsets -4..=6, normal/chars/attributes mode, alpha or opaque, visible or hidden, sparse content incl. transparent-colour half blocks, optional overlay) are queried with Buffer::get_char at every position of the bounding box plus a 2-cell border before and after a transformation that the stacking laws say is invisible: L1 insert an empty alpha layer at a stack index; L2 rewrite the cells of a hidden layer; L3 translate every layer and the overlay by d and query at p+d; L4 remove all layers below a visible opaque normal-mode layer and query inside its rectangle (also where the opaque layer's own cell uses the transparent colour); L5 move a layer and query positions it covers neither before nor after; L6 compare with a 15-line reference compositor on the fragment 'all layers normal mode, no transparent colours, no overlay'. Invisible results are compared as invisible only. distinct_nontrivial = distinct (law, stack shape, parameters) instances"
     }
     fn meta(&self, ctx: &Ctx) -> Value {
         json!({"floor_evaluations": 5000, "floor_distinct": ctx.tier.pick(5000u64, 100000u64),
-               "assumptions": ["all layers use default font page 0", "L4 skips cells of the opaque layer that themselves use the transparent colour (they look through on purpose)"]})
+               "assumptions": ["all layers use default font page 0"]})
     }
     fn total(&mut self, ctx: &Ctx) -> u64 {
         ctx.tier.pick(60_000, 5_000_000)
